@@ -65,20 +65,23 @@ class SlotLoop:
                     self.parent_p = owner
         ctx.require(self.k is not None and self.j is not None, '%s: attribute/output cursors not identified' % f['qn'])
 
-    def atoms(self, node):
-        """classify an atomic condition: returns role string or None"""
-        e = strip(node.ast)
-        # reference / const locals that still name their initialiser at this node (checked on the CFG) are expanded
+    def binds_at(self, nid):
+        """reference / const locals that still name their initialiser at this node (checked on the CFG): {local id: canonical string}"""
         cache = self.__dict__.setdefault('_binds_at', {})
-        if node.id not in cache:
+        if nid not in cache:
             b = {}
             try:
-                for (v, ini) in self.g.live_const_locals(node.id):
+                for (v, ini) in self.g.live_const_locals(nid):
                     b[v['id']] = pr.canon(ini, b)
             except Exception:
                 b = {}
-            cache[node.id] = b
-        lb = cache[node.id]
+            cache[nid] = b
+        return cache[nid]
+
+    def atoms(self, node):
+        """classify an atomic condition: returns role string or None"""
+        e = strip(node.ast)
+        lb = self.binds_at(node.id)
         s = pr.norm_obj(pr.canon(e, lb))
         k, x, i = 'L%d' % self.k, ('L%d' % self.x if self.x is not None else None), 'L%d' % self.i
         if e.get('k') == 'bin' and e.get('op') in ('!=', '=='):
@@ -259,8 +262,15 @@ def rule_hidden(ctx, cfg, prog):
         bound = 0
         for (p, oc) in sl.body_paths():
             if oc.get('k_match') is True and oc.get('k_in') is not False and oc.get('omit') is False:
-                muls = [c for (nm, th, c) in sl.effect_calls(p) if nm == 'multiply' and
-                        any(('.attrs[L%d].id' % sl.k) in pr.norm_obj(pr.canon(a)) for a in c.get('args', []))]
+                muls = []
+                for (nid_, lab_) in p:
+                    nd_ = sl.g.nodes[nid_]
+                    if nd_.kind == 'stmt' and nd_.note != 'inc' and nd_.ast is not None:
+                        lb_ = sl.binds_at(nid_)
+                        for c in pr.calls(nd_.ast):
+                            if c.get('this') is not None and c['name'] == 'multiply' and \
+                                    any(('.attrs[L%d].id' % sl.k) in pr.norm_obj(pr.canon(a, lb_)) for a in c.get('args', [])):
+                                muls.append(c)
                 if sl.x is not None and oc.get('x_match') is False or oc.get('x_in') is False:
                     pass
                 bound += 1
